@@ -443,7 +443,7 @@ struct SymbolData {
 impl SymbolData {
     /// Calculates the source range of this symbol, given the name of the label.
     fn span(&self, label: &str) -> Range<usize> {
-        self.src_start .. (self.src_start + label.len())
+        self.src_start .. self.src_start.saturating_add(label.len())
     }
 }
 
@@ -475,7 +475,8 @@ impl DebugSymbols {
         // B doesn't overlap with A because ObjectFile check
         a.line_map.0.extend({
             b.line_map.0.into_iter()
-                .map(|(k, v)| (k + lines, v))
+                // (a line block read from a file may not be representable after the shift)
+                .filter_map(|(k, v)| Some((k.checked_add(lines)?, v)))
         });
 
         a.src_info = SourceInfo::from_string(a.src_info.src + "\n" + &b.src_info.src);
